@@ -15,7 +15,15 @@ What is enumerated (real TCPServer / H11Protocol / H2Protocol / HTTPStream on bo
 * client pacing (Explorer A, bounds M mid-flight injections / S preemptions): HTTP/2 client that
   acknowledges DATA only when an `ack` event fires (whole, or in small increments), transport
   pause/resume (peer stops reading), and application gates between the ASGI messages, all as
-  separate sources interleaved at every position within the bounds.
+  separate sources interleaved at every position within the bounds;
+* HTTP/2 client pacing scripts (table PACES; the client never acknowledges by itself, its credit
+  events are one more interleaved source): "exact window, no ack" - the body is exactly the
+  client's window (SETTINGS_INITIAL_WINDOW_SIZE 1000 / the default 65 535 of stream and
+  connection) and no WINDOW_UPDATE ever follows, end of body in the same message as the last
+  bytes, in a later empty message, after a gate; "connection-only credit" - 1 MiB stream windows,
+  200 000 byte body, WINDOW_UPDATE for stream 0 only; "stream-only credit then connection credit"
+  and the reverse order, default windows, 70 000 / 200 000 byte bodies; four concurrent 20 000
+  byte responses sharing one connection window, acknowledged by the client library's stock policy.
 
 Oracle: the bytes the server wrote are parsed by an independent h11 / h2 *client*; expected values
 come from the application script (the specification) and mc/x_c01c02c13_ref.py.  Clauses:
@@ -26,7 +34,8 @@ come from the application script (the specification) and mc/x_c01c02c13_ref.py. 
                        (+ the HTTP/1 framing header the reference framing rule allows)"
   body                 body != concatenation of the chunks (empty for HEAD, 1xx, 204, 304)
   end-of-response      end not signalled exactly once after the last body byte
-  trailers             trailers on HTTP/1, or to a client that did not send te: trailers, or altered
+  trailers             trailers on HTTP/1, or to a client that did not send te: trailers, or altered, or (HTTP/2 with
+                       te: trailers) missing
 """
 from __future__ import annotations
 
@@ -42,21 +51,26 @@ ID = "C02"
 LEVEL = "model_checking"
 TECHNIQUE = ("bounded exhaustive enumeration of application response scripts x carriers x request methods, plus "
              "deviation-bounded stateless exploration of client pacing (h2 acknowledgements, transport pause/resume, "
-             "application gates) on the real TCPServer/H11/H2/HTTPStream code; server output parsed by independent "
-             "h11/h2 client state machines and compared with the script")
+             "application gates, HTTP/2 credit scripts: exact window without acknowledgement, connection-only credit, "
+             "stream-then-connection credit, four concurrent streams) on the real TCPServer/H11/H2/HTTPStream code; "
+             "server output parsed by independent h11/h2 client state machines and compared with the script")
 RULE = ("scenario = engine x carrier x method x status x header list x chunking x extra (trailers/early hint) x pacing; "
-        "eager scenarios are one execution each, paced ones every interleaving of ack / pause / resume / gate-release "
-        "events within (M,S); non-trivial = an application instance ran and a non-default choice was taken; distinct "
+        "eager scenarios are one execution each, paced ones every interleaving of ack / credit (WINDOW_UPDATE) / flush / "
+        "pause / resume / gate-release events within (M,S); non-trivial = an application instance ran and a non-default choice was taken; distinct "
         "by digest of (delivered messages, send outcomes, parsed client view, DATA frame / write sizes, close state)")
 ASSUMPTIONS = [
     "environment model (fake transport/stream, virtual loop) is bound to real sockets by ./check selftest",
     "the application sends only ASGI-valid sequences with lower-case, whitespace-free header fields and never its own "
     "connection/transfer-encoding fields; content-length, when given, matches the body; content-length is not combined "
     "with 204",
-    "trailers: the property only forbids trailers on HTTP/1 or without te: trailers; their absence is not judged",
+    "trailers: forbidden on HTTP/1 or without te: trailers; on HTTP/2 with te: trailers the trailers the application "
+    "announced (trailers: True) and sent must arrive unaltered after the body",
     "early hints (103) are not judged themselves, only that the final response is unaffected",
 ]
-BOUNDS_DOC = {"quick": "full product eager; paced selection M<=1,S<=2", "thorough": "full product eager; paced selection M<=2,S<=3"}
+BOUNDS_DOC = {"quick": "full product eager; paced selection (incl. the HTTP/2 credit scripts: bodies of exactly 1000 / 65 535 "
+                       "bytes = the window, 70 000 and 200 000 bytes against stream-0-only / stream-then-connection credit, "
+                       "4 x 20 000 bytes concurrently) M<=1,S<=2",
+              "thorough": "full product eager; paced selection M<=2,S<=3 (four concurrent streams: M<=1,S<=3)"}
 BUDGET = {"quick": 100, "thorough": 1500}
 
 BIGW = bytes(range(256)) * 273 + b"w" * 112  # 70 000 > 65 535 (initial HTTP/2 window)
@@ -69,10 +83,59 @@ CHUNKINGS: Dict[str, List[tuple]] = {
     "cw": [(BIGW, False)],
     "cf": [(BIGF, True), (b"tail", False)],
 }
+# bodies for the client pacing scripts (period 251: a frame-sized block out of place would be seen)
+W1K = bytes(i % 251 for i in range(1000))  # == SETTINGS_INITIAL_WINDOW_SIZE 1000
+W64K = bytes(i % 251 for i in range(65535))  # == the default stream and connection windows
+B200K = (bytes(range(251)) * 797)[:200000]  # > 3 connection windows
+PACED_CHUNKINGS: Dict[str, List[tuple]] = {
+    "x1k": [(W1K, False)],
+    "x1ke": [(W1K, True), (b"", False)],
+    "x1ks": [(W1K[:400], True), (W1K[400:], False)],
+    "x64k": [(W64K, False)],
+    "x64ke": [(W64K, True), (b"", False)],
+    "c200k": [(B200K, False)],
+    "c200k2": [(B200K[:100000], True), (B200K[100000:], False)],
+    "c20k": [(B200K[:20000], False)],
+}
+ALL_CHUNKINGS = {**CHUNKINGS, **PACED_CHUNKINGS}
 STATUSES = [200, 201, 204, 205, 304, 404, 500]  # 205: a status that is NOT body-less (only 1xx/204/304 are)
 CARRIERS = ["h1", "h10", "h2", "h2c"]
 HDRS = ["none", "cl", "rep"]
 TRAILERS = [(b"x-trailer", b"t1"), (b"x-sum", b"2")]
+
+
+BIGWIN = 1 << 20
+# client pacing scripts: what the HTTP/2 client announces, whether it acknowledges DATA by itself, and the credit
+# (WINDOW_UPDATE) events it fires on its own; "gates+<pace>" additionally puts a gate before every body message
+PACES: Dict[str, dict] = {
+    "eager": {"single": True}, "win100": {"single": True, "settings": {4: 100}, "flushes": 420},
+    "win1": {"single": True, "settings": {4: 1}, "flushes": 420},
+    "net": {"net": True},
+    "acks": {"auto_ack": False, "acks": [("ack", 1)] * 8},
+    "smallacks": {"auto_ack": False, "acks": [("ackn", 1, 100), ("ackn", 1, 5000), ("ackn", 1, 20000)] + [("ack", 1)] * 8},
+    # the body is exactly the client's window and the client never gives credit: END_STREAM needs none
+    "exact1k": {"auto_ack": False, "settings": {4: 1000}},
+    "exact64k": {"auto_ack": False},
+    # huge stream windows, 65 535 byte connection window, credit for the connection (stream 0) only
+    "conncredit": {"auto_ack": False, "settings": {4: BIGWIN}, "credit": [("winup", 0, 65535)] * 3},
+    # default windows, both run out together; stream credit first then connection credit, and the reverse
+    "streamconn": {"auto_ack": False, "credit": [("winup", 1, 70000), ("winup", 0, 70000)] * 2},
+    "connstream": {"auto_ack": False, "credit": [("winup", 0, 70000), ("winup", 1, 70000)] * 2},
+    "streamconn1": {"auto_ack": False, "credit": [("winup", 1, 70000), ("winup", 0, 70000)]},  # (one round is all a
+    "connstream1": {"auto_ack": False, "credit": [("winup", 0, 70000), ("winup", 1, 70000)]},  # 70 000 byte body needs)
+    # four concurrent responses share the connection window; the client library's stock acknowledgement policy
+    # (it then renews the connection window only: no stream received half a window)
+    "four": {"streams": 4, "flushes": 12},
+}
+
+
+def pace_of(pace: str) -> dict:
+    gates = pace.startswith("gates+")
+    d = {"single": False, "settings": None, "auto_ack": True, "net": False, "acks": None, "credit": None,
+         "streams": 1, "flushes": 6, "gates": gates}
+    for part in (pace[6:] if gates else pace).split("+"):
+        d.update(PACES[part])
+    return d
 
 
 def app_headers(hdrs: str, body: bytes) -> List[tuple]:
@@ -115,21 +178,32 @@ def scenarios(tier: str) -> List[Any]:
                         out.append((engine, carrier, "GET", 200, hdrs, ch, "", pace))
                 if carrier in ("h2", "h2c") and pace in ("acks", "gates+net"):
                     out.append((engine, carrier, "GET", 200, "none", "c3", "trailers-te", pace))
+            if carrier in ("h2", "h2c"):
+                for pace, chs in (("exact1k", ("x1k", "x1ke", "x1ks")), ("gates+exact1k", ("x1ke", "x1ks")),
+                                  ("exact64k", ("x64k", "x64ke")), ("gates+exact64k", ("x64ke",)),
+                                  ("conncredit", ("c200k", "c200k2")), ("streamconn", ("c200k",)), ("connstream", ("c200k",)),
+                                  ("streamconn1", ("cw",)), ("connstream1", ("cw",))):
+                    for ch in chs:
+                        for hdrs in ("none", "cl"):
+                            out.append((engine, carrier, "GET", 200, hdrs, ch, "", pace))
+                out.append((engine, carrier, "GET", 200, "none", "c20k", "", "four"))
     return out
 
 
 def bounds(tier: str, params: Any) -> dict:
-    if params[7] in ("eager", "win100", "win1"):
+    if pace_of(params[7])["single"]:
         return {"M": 0, "S": 0, "R": 0}
     if tier == "quick":
         return {"M": 1, "S": 2, "R": 0}
+    if pace_of(params[7])["streams"] > 1:  # 4 streams, 3 sources, ~25 events: M<=2 alone is > 10^5 executions
+        return {"M": 1, "S": 3, "R": 0}
     return {"M": 2, "S": 3, "R": 0}
 
 
 def script_of(params: Any) -> tuple:
     """(application program, app header list, body chunks, trailers or None)"""
     engine, carrier, method, status, hdrs, ch, extra, pace = params
-    chunks = CHUNKINGS[ch]
+    chunks = ALL_CHUNKINGS[ch]
     body = b"".join(c for c, _ in chunks)
     headers = app_headers(hdrs, body)
     start: Dict[str, Any] = {"type": "http.response.start", "status": status, "headers": headers}
@@ -140,8 +214,11 @@ def script_of(params: Any) -> tuple:
     if extra.startswith("trailers"):
         start["trailers"] = True
         trailers = TRAILERS
+    pc = pace_of(pace)
+    if pc["streams"] > 1:  # concurrent requests: every application waits until all of them have arrived
+        prog.append(("gate", "g"))
     prog.append(("send", start))
-    gated = pace.startswith("gates")
+    gated = pc["gates"]
     for data, more in chunks:
         if gated:
             prog.append(("gate", "g"))
@@ -156,45 +233,50 @@ def script_of(params: Any) -> tuple:
 def plan(params: Any, chooser: Any) -> tuple:
     engine, carrier, method, status, hdrs, ch, extra, pace = params
     prog, headers, body, trailers = script_of(params)
+    pc = pace_of(pace)
     m = method.encode()
     te = extra == "trailers-te"
     conn: Dict[str, Any] = {"carrier": "h1" if carrier == "h10" else carrier, "methods": [m]}
-    settings = {"win100": {4: 100}, "win1": {4: 1}}.get(pace)  # the client's SETTINGS_INITIAL_WINDOW_SIZE
+    settings = pc["settings"]  # the client's SETTINGS (INITIAL_WINDOW_SIZE)
     if settings:
-        conn["h2_settings"] = settings
+        conn["h2_settings"] = dict(settings)
+    sids = [1 + 2 * i for i in range(pc["streams"])]
+    tef = [(b"te", b"trailers")] if te else []
     if carrier in ("h1", "h10"):
         client = [("data", 0, h1_request(m, b"/r", version=b"1.0" if carrier == "h10" else b"1.1"))]
     elif carrier == "h2":
         conn.update(tls=True, alpn="h2")
-        fields = h2_request_headers(m, b"/r", extra=[(b"te", b"trailers")] if te else [])
-        client = [("cmd", 0, "preface"), ("cmd", 0, "headers", 1, fields, True)]
+        client = [("cmd", 0, "preface")] + [("cmd", 0, "headers", sid, h2_request_headers(m, b"/r", extra=tef), True) for sid in sids]
     else:
         hs = [(b"Connection", b"Upgrade, HTTP2-Settings"), (b"Upgrade", b"h2c"), (b"HTTP2-Settings", h2c_settings_header(settings))]
         if te:
             hs.append((b"TE", b"trailers"))
-        client = [("data", 0, h1_request(m, b"/r", hs)), ("cmd", 0, "flush")]
+        # (the client's preface leaves it with its next command: the flush, or the next request)
+        client = [("data", 0, h1_request(m, b"/r", hs))] + ([("cmd", 0, "flush")] if len(sids) == 1 else []) + \
+                 [("cmd", 0, "headers", sid, h2_request_headers(m, b"/r", scheme=b"http", extra=tef), True) for sid in sids[1:]]
     sources = [("client", client)]
-    if carrier in ("h2", "h2c") and "acks" not in pace:
+    if carrier in ("h2", "h2c") and pc["acks"] is None:
         # the live client's own WINDOW_UPDATE / SETTINGS ack frames leave it when a flush event fires
-        flush = [("cmd", 0, "flush")] * (420 if settings else 6)
-        if pace in ("eager", "win100", "win1"):
+        flush = [("cmd", 0, "flush")] * pc["flushes"]
+        if pc["single"]:
             client.extend(flush)
         else:
             sources.append(("flush", flush))
-    if "acks" in pace:
+    if not pc["auto_ack"]:
         conn["auto_ack"] = False
-        acks = [("cmd", 0, "ack", 1)] * 8
-        if pace == "smallacks":
-            acks = [("cmd", 0, "ackn", 1, 100), ("cmd", 0, "ackn", 1, 5000), ("cmd", 0, "ackn", 1, 20000)] + acks
-        sources.append(("acks", acks))
-    if "net" in pace:
+    if pc["acks"]:
+        sources.append(("acks", [("cmd", 0) + a for a in pc["acks"]]))
+    if pc["credit"]:
+        sources.append(("credit", [("cmd", 0) + c for c in pc["credit"]]))
+    if pc["net"]:
         sources.append(("net", [("pause", 0), ("resume", 0)]))
-    if pace.startswith("gates"):
-        sources.append(("app", [("release", "g")] * (len(CHUNKINGS[ch]) + 1)))
+    releases = (len(ALL_CHUNKINGS[ch]) + 1 if pc["gates"] else 0) + (len(sids) if len(sids) > 1 else 0)
+    if releases:
+        sources.append(("app", [("release", "g")] * releases))
     sc = {"level": "conn", "conns": {0: conn}, "client_factory": make_xclient,
           "app_factory": paced_app_factory({"http": prog}), "config": {"keep_alive_timeout": 5}, "sources": sources,
-          "midflight": pace not in ("eager", "win100", "win1"), "sigs": pace not in ("eager", "win100", "win1")}
-    return engine, sc, {"headers": headers, "body": body, "trailers": trailers, "te": te}
+          "midflight": not pc["single"], "sigs": not pc["single"]}
+    return engine, sc, {"headers": headers, "body": body, "trailers": trailers, "te": te, "sids": sids}
 
 
 def _kind(got: bytes, want: bytes) -> str:
@@ -218,14 +300,14 @@ def oracle(w: Any, params: Any, ctx: Any) -> List[dict]:
         return out
     want_body = b"" if body_suppressed(method, status) else ctx["body"]
     h1 = carrier in ("h1", "h10")
+    views: List[tuple] = []  # (tag, status, headers, body, trailers, ended properly, how it ended)
     if h1:
         resps = cl.h1.responses
         if len(resps) != 1 or cl.h1.leftover:
             out.append(V("response-count", f"{carrier}:{len(resps)}", [(r["status"], r["complete"]) for r in resps]))
             return out
         r = resps[0]
-        got_status, got_headers, got_body, got_trailers = r["status"], r["headers"], r["body"], r["trailers"] or None
-        ended_ok = r["complete"]
+        views.append((tag, r["status"], r["headers"], r["body"], r["trailers"] or None, r["complete"], "incomplete"))
     else:
         if carrier == "h2c":
             resps = cl.h1.responses
@@ -233,28 +315,35 @@ def oracle(w: Any, params: Any, ctx: Any) -> List[dict]:
                 out.append(V("response-count", f"{carrier}:no-101", [(x["status"], x["complete"]) for x in resps]))
                 return out
         sts = cl.h2.streams
-        if sorted(sts) != [1] or sts[1]["status"] is None or sts[1]["pushes"]:
+        sids = ctx["sids"]
+        if sorted(sts) != sids or any(sts[sid]["status"] is None or sts[sid]["pushes"] for sid in sids):
             out.append(V("response-count", f"{carrier}:streams-{sorted(sts)}", {k: v["status"] for k, v in sts.items()}))
             return out
-        st = sts[1]
-        got_status, got_headers, got_body, got_trailers = st["status"], st["headers"], st["body"], st["trailers"]
-        ended_ok = st["ended"] == 1 and st["reset"] is None and cl.h2.goaway is None
-    if got_status != status:
-        out.append(V("status", f"{tag}:got-{got_status}", ""))
-    prob = response_header_problems(list(got_headers), ctx["headers"], h1, carrier == "h10", status, method, len(got_body))
-    if prob is not None:
-        out.append(V("headers", f"{tag}:{prob}", f"got {got_headers!r} app sent {ctx['headers']!r}"))
-    if got_body != want_body:
-        out.append(V("body", f"{tag}:{_kind(got_body, want_body)}", f"client got {len(got_body)} bytes {got_body[:30]!r}, "
-                                                                     f"wanted {len(want_body)} bytes {want_body[:30]!r}"))
-    if not ended_ok:
-        out.append(V("end-of-response", f"{tag}:" + ("incomplete" if h1 else f"ended-{st['ended']}-reset-{st['reset']}"),
-                     "end of response not signalled exactly once"))
-    if got_trailers:
-        if h1 or not ctx["te"]:
-            out.append(V("trailers", f"{tag}:unsolicited", repr(got_trailers)))
-        elif ctx["trailers"] is None or list(got_trailers) != list(ctx["trailers"]):
-            out.append(V("trailers", f"{tag}:altered", f"got {got_trailers!r} app sent {ctx['trailers']!r}"))
+        for sid in sids:
+            st = sts[sid]
+            views.append((tag if len(sids) == 1 else f"{tag}:one-of-{len(sids)}-streams", st["status"], st["headers"], st["body"],
+                          st["trailers"], st["ended"] == 1 and st["reset"] is None and cl.h2.goaway is None,
+                          f"ended-{st['ended']}-reset-{st['reset']}"))
+    for tag, got_status, got_headers, got_body, got_trailers, ended_ok, how in views:
+        if got_status != status:
+            out.append(V("status", f"{tag}:got-{got_status}", ""))
+        prob = response_header_problems(list(got_headers), ctx["headers"], h1, carrier == "h10", status, method, len(got_body))
+        if prob is not None:
+            out.append(V("headers", f"{tag}:{prob}", f"got {got_headers!r} app sent {ctx['headers']!r}"))
+        if got_body != want_body:
+            out.append(V("body", f"{tag}:{_kind(got_body, want_body)}", f"client got {len(got_body)} bytes {got_body[:30]!r}, "
+                                                                         f"wanted {len(want_body)} bytes {want_body[:30]!r}"))
+        if not ended_ok:
+            out.append(V("end-of-response", f"{tag}:{how}", "end of response not signalled exactly once"))
+        if got_trailers:
+            if h1 or not ctx["te"]:
+                out.append(V("trailers", f"{tag}:unsolicited", repr(got_trailers)))
+            elif ctx["trailers"] is None or list(got_trailers) != list(ctx["trailers"]):
+                out.append(V("trailers", f"{tag}:altered", f"got {got_trailers!r} app sent {ctx['trailers']!r}"))
+        elif not h1 and ctx["te"] and ctx["trailers"] and ended_ok:
+            # what the application sends reaches the client: on HTTP/2, to a client that sent te: trailers, that
+            # includes the trailers it announced and sent
+            out.append(V("trailers", f"{tag}:missing", f"app sent {ctx['trailers']!r}, the response ended without them"))
     return out
 
 
